@@ -90,11 +90,19 @@ type AuthSpec struct {
 	FailErr  *ErrSpec `json:"fail_err,omitempty"`
 	// FailTrue: the failing validator returns (ctx, true, err): an error is a failure whatever the boolean says
 	FailTrue bool `json:"fail_true,omitempty"`
+	// PerUser: every user is known, with the password Pass + ":" + user name
+	PerUser bool `json:"per_user,omitempty"`
 }
 
 func (a *AuthSpec) Verdict(user, pass string) string {
 	if a.FailErr != nil && pass == a.FailPass {
 		return "fail"
+	}
+	if a.PerUser {
+		if pass == a.Pass+":"+user {
+			return "accept"
+		}
+		return "reject"
 	}
 	if user == a.User && pass == a.Pass {
 		return "accept"
